@@ -77,6 +77,8 @@ func describe(c Case, e Ev, closeCall, closeRet int64) string {
 	switch e.Op {
 	case "set":
 		what = fmt.Sprintf("SetCF(cf%d,%s, %s len=%d)", rg.CF, rg.Key, e.ID, e.Sz)
+	case "setempty":
+		what = fmt.Sprintf("SetCF(cf%d,%s, []byte{})", rg.CF, rg.Key)
 	case "setnil":
 		what = fmt.Sprintf("SetCF(cf%d,%s, nil)", rg.CF, rg.Key)
 	case "del":
@@ -154,7 +156,7 @@ func judge(c Case, r *pbt.Rec, hist []Ev, closeCall, closeRet int64) error {
 				}
 				r.Label("write-ok")
 				in := regIn{op: 2}
-				if e.Op == "set" {
+				if e.Op == "set" || e.Op == "setempty" {
 					in = regIn{op: 1, val: e.ID}
 					okWrite[e.ID] = true
 					if int64(e.Sz) >= c.Cfg.Threshold {
@@ -193,6 +195,9 @@ func judge(c Case, r *pbt.Rec, hist []Ev, closeCall, closeRet int64) error {
 			}
 			ops = append(ops, porcupine.Operation{ClientId: clientID(e.G, len(c.Workers)), Input: regIn{op: 0}, Call: e.Call, Output: regOut{val: e.Out}, Return: e.Ret})
 			judged = append(judged, e)
+		}
+		if okWrite[emptyID] {
+			delete(failWrite, emptyID) // not unique: some other write of the empty value succeeded
 		}
 		// values that must never be visible
 		for _, e := range judged {
